@@ -38,6 +38,9 @@ func genType(c *core.Ctx, idx int, tweak func(*gen.TG)) *tcase {
 		tweak(tg)
 	}
 	t := tg.Top(3)
+	if idx%91 == 5 && !tg.C.ProtoArrays && tg.C.Plain[model.TimeT] == model.SpBQTime {
+		t = model.TimeT // the time itself at top level under the BigQuery codec (witness D34)
+	}
 	return &tcase{cfg: tg.C, name: inst.CfgName(tg.C), p: inst.New(tg.C), typ: t}
 }
 
